@@ -119,9 +119,13 @@ def faults(m):
     out = []
     master = b.get_account_cash_balance(b.base_currency)
     pids = list(m.pfs.keys())
-    out.append(('acct_sub(negative)', lambda: b.subscribe_funds_to_account(-5.0), ValueError, True))
-    out.append(('acct_wd(negative)', lambda: b.withdraw_funds_from_account(-5.0), ValueError, True))
+    for neg in (-5.0, -0.004, -1e-9):      # also negatives below half a cent: no rounding may let them through
+        out.append(('acct_sub(negative %g)' % neg, lambda neg=neg: b.subscribe_funds_to_account(neg), ValueError, True))
+        out.append(('acct_wd(negative %g)' % neg, lambda neg=neg: b.withdraw_funds_from_account(neg), ValueError, True))
     out.append(('acct_wd(excess)', lambda: b.withdraw_funds_from_account(master + 0.01), ValueError, True))
+    # the smallest excess a float can express next to the balance: no tolerance window may accept it
+    tiny = max(abs(master), 1.0) * 1e-12 + 1e-9
+    out.append(('acct_wd(excess by an epsilon)', lambda: b.withdraw_funds_from_account(master + tiny), ValueError, True))
     out.append(('get_account_cash_balance(XYZ)', lambda: b.get_account_cash_balance('XYZ'), ValueError, True))
     for unknown in ('zz',):
         out.append(('pf_sub(unknown id)', lambda: b.subscribe_funds_to_portfolio(unknown, 1.0), KeyError, True))
@@ -142,17 +146,26 @@ def faults(m):
         earlier = pclock - pd.Timedelta(seconds=1)
         cash = port.cash
         out.append(('create(duplicate)', lambda pid=pid: b.create_portfolio(pid), ValueError, True))
-        out.append(('pf_sub(negative)', lambda pid=pid: b.subscribe_funds_to_portfolio(pid, -5.0), ValueError, True))
-        out.append(('pf_wd(negative)', lambda pid=pid: b.withdraw_funds_from_portfolio(pid, -5.0), ValueError, True))
+        for neg in (-5.0, -0.004):
+            out.append(('pf_sub(negative %g)' % neg, lambda pid=pid, neg=neg: b.subscribe_funds_to_portfolio(pid, neg),
+                        ValueError, True))
+            out.append(('pf_wd(negative %g)' % neg, lambda pid=pid, neg=neg: b.withdraw_funds_from_portfolio(pid, neg),
+                        ValueError, True))
         out.append(('pf_sub(excess of master cash)',
                     lambda pid=pid: b.subscribe_funds_to_portfolio(pid, master + 0.01), ValueError, True))
+        out.append(('pf_sub(excess of master cash by an epsilon)',
+                    lambda pid=pid: b.subscribe_funds_to_portfolio(pid, master + tiny), ValueError, True))
+        out.append(('pf_wd(excess of portfolio cash by an epsilon)',
+                    lambda pid=pid, cash=cash: b.withdraw_funds_from_portfolio(
+                        pid, max(cash, 0.0) + max(abs(cash), 1.0) * 1e-12 + 1e-9), ValueError, True))
         out.append(('pf_wd(excess of portfolio cash)',
                     lambda pid=pid, cash=cash: b.withdraw_funds_from_portfolio(pid, max(cash, 0.0) + 0.01),
                     ValueError, True))
-        out.append(('Portfolio.subscribe_funds(negative)',
-                    lambda port=port, t=pclock: port.subscribe_funds(t, -5.0), ValueError, True))
-        out.append(('Portfolio.withdraw_funds(negative)',
-                    lambda port=port, t=pclock: port.withdraw_funds(t, -5.0), ValueError, True))
+        for neg in (-5.0, -0.004):
+            out.append(('Portfolio.subscribe_funds(negative %g)' % neg,
+                        lambda port=port, t=pclock, neg=neg: port.subscribe_funds(t, neg), ValueError, True))
+            out.append(('Portfolio.withdraw_funds(negative %g)' % neg,
+                        lambda port=port, t=pclock, neg=neg: port.withdraw_funds(t, neg), ValueError, True))
         out.append(('Portfolio.withdraw_funds(excess)',
                     lambda port=port, t=pclock, cash=cash: port.withdraw_funds(t, max(cash, 0.0) + 0.01),
                     ValueError, True))
@@ -268,7 +281,8 @@ def run(tier, res, is_known):
                 'negative price mark, broker.update back in time) is injected on a fresh rebuild and the full '
                 'snapshot (cash, holdings, pending orders, history) is compared before/after; non-trivial = state '
                 'in which at least one fault was refused; distinct = state')
-    res.bounds = {'valid_depth': depth, 'faults_per_path': 1, 'initial_states': len(INITIALS)}
+    res.bounds = {'valid_depth': {'empty': depth, 'pre-built states': depth - 1}, 'faults_per_path': 1,
+                  'initial_states': len(INITIALS)}
     res.assumptions += [
         'private clocks are not compared (the statement does not list them); faults use dt = portfolio clock so a '
         'refused call cannot drift it; latent private differences are judged by a one-step differential',
@@ -278,7 +292,8 @@ def run(tier, res, is_known):
     states = {}
     for i, init in enumerate(INITIALS):
         spec = bm.BrokerSpec('C15', FEE, [init], alphabet)
-        seen = bfs(spec, depth, res, is_known, label='valid spine init=%d' % i)
+        # the empty initial state needs one more step than the pre-built ones to reach comparable states
+        seen = bfs(spec, depth if i == 0 else depth - 1, res, is_known, label='valid spine init=%d' % i)
         for k, h in seen.items():
             states.setdefault(k, h)
     if any(not is_known(v) for v in res.violations):
